@@ -233,10 +233,10 @@ def run_unit(unit, repo=None, rlimit=None, extra_args=()):
             break
         demote += new
     res.demoted = list(demote)
-    if demote and res.status == 'ok':
+    if res.status == 'ok':
         for m in res.metas:
             if m.get('demoted'):
                 res.fn_results[m['name']] = dict(success=True, undecided=True, time_ms=None, rlimit=None,
-                                                 errors=[dict(message='overlay no longer fits this function (front end rejected it); not decided', rendered='', where=[])])
+                                                 errors=[dict(message='overlay no longer fits this function (%s); not decided' % (m.get('assemble_error') or 'front end rejected it'), rendered='', where=[])])
                 m['mode'] = 'verified'   # still an obligation of the property, but undecided
     return res
